@@ -379,6 +379,8 @@ FUNCTIONS['SEARCH'] = wrap_ufunc(xsearch, **_kw0)
 
 def xsubstitute(text, old_text, new_text, instance_num=None):
     text, old_text, new_text = tuple(map(_str, (text, old_text, new_text)))
+    if not old_text:
+        return text
     if instance_num is None:
         return text.replace(old_text, new_text)
     elif isinstance(instance_num, (
